@@ -1726,7 +1726,7 @@ def flattened_sum(terms):
             continue
 
         if isinstance(item, Sum):
-            queue += item.children
+            queue = list(item.children) + queue
         else:
             done.append(item)
 
@@ -1766,7 +1766,7 @@ def flattened_product(terms):
             continue
 
         if isinstance(item, Product):
-            queue += item.children
+            queue = list(item.children) + queue
         else:
             done.append(item)
 
